@@ -1,7 +1,7 @@
 """C08 — the active chain is always a most-work chain free of invalid blocks (specs/BlockTree, engine E1 on a real node)."""
 import os, sys
 sys.path.insert(0, os.path.dirname(os.path.abspath(__file__)))
-import vflib, _blocktree
+import vflib, _blocktree, _utxochain
 
 META = dict(
     engine="E1",
@@ -26,6 +26,12 @@ def run(ctx):
         ctx.tlc("BlockTree", "BlockTree", "MC_c08_4.cfg", xmx="20g")
     per_action = _blocktree.replay_graph(ctx, binary, "E1_c08_3q.cfg" if ctx.tier == "quick" else "E1_c08_3.cfg", "Obs_3_mw0.cfg", 0, RELEVANT,
                                          {"invalidate", "reconsider", "block"})
+    # the same property on histories whose blocks carry transactions (conflicting spends, in-block chains): reorgs must really
+    # disconnect and reconnect transactions; the tip must be a most-work chain that is valid by UtxoChain's rules
+    ubin = ctx.build_adapter("utxochain")
+    _utxochain.run_scenario(ctx, ubin, "MC_spend", "MCO_spend", "c09q" if ctx.tier == "quick" else "spend3",
+                            {"ObsTipMostWork", "ObsChainValid", "ObsNoFailedInChain"},
+                            lambda p: any(s["a"][0] in ("invalidate", "reconsider") for s in p["steps"]))
     missing = [a for a in ("mine", "header", "block", "invalidate", "reconsider") if not per_action[a]]
     if missing:
         raise vflib.InfraError("vacuity: actions never taken: %s" % missing)
